@@ -82,7 +82,7 @@ pub fn farm_shard(
     let mut gen = crate::wfarm::FarmGen::new(seed);
     let mut wcfg = WorldCfg::default();
     // vary the farm configuration across shards
-    wcfg.max_concurrent_farms = 2 + (shard as u32 % 2);
+    wcfg.max_concurrent_farms = [2, 3, 1, 12][shard % 4];
     wcfg.emergency_unlock_penalty = [cosmwasm_std::Decimal::percent(10), cosmwasm_std::Decimal::percent(2), cosmwasm_std::Decimal::percent(50), cosmwasm_std::Decimal::percent(100)][shard % 4];
     wcfg.farm_fee = [cosmwasm_std::coin(1_000, "uom"), cosmwasm_std::coin(0, "uom"), cosmwasm_std::coin(500, "uusdt")][shard % 3].clone();
     tune(&mut gen, &mut wcfg);
@@ -371,8 +371,9 @@ pub fn run(cfg: &RunCfg, t0: Instant) -> i32 {
             rep.floor("expand", 50);
             rep.floor("close", 100);
             rep.floor("limit", 1_000);
+            rep.floor("limit_probe", 15);
             fin(rep, cfg, "exploration",
-                "W-farm (farm-heavy mix: fee configurations zero/in the reward denom/in another denom switched by the owner, exact/over/under/extra-coin payments, explicit/generated/colliding identifiers, start/end inside and outside the allowed buffer, expansions by owner and strangers with multiples and non-multiples of the emission rate before/at/after the end, closes by owner/contract owner/stranger, creations after expiry that auto-close): the bank-event slice of every accepted creation/expansion/close is matched against the exact expected movements; forked exact-payment probes per fee configuration; per-LP count of unexpired farms (own expiry computation) <= limit after every message; distinct = (fee class, auto-closed, identifier kind, #coins)",
+                "W-farm (farm-heavy mix: fee configurations zero/in the reward denom/in another denom switched by the owner, exact/over/under/extra-coin payments, explicit/generated/colliding identifiers, start/end inside and outside the allowed buffer, expansions by owner and strangers with multiples and non-multiples of the emission rate before/at/after the end, closes by owner/contract owner/stranger, creations after expiry that auto-close): the bank-event slice of every accepted creation/expansion/close is matched against the exact expected movements; forked exact-payment probes per fee configuration; forked limit probes (limit raised to a random value up to +13, farms created on one LP token until refused: exactly limit - unexpired are accepted); per-LP count of unexpired farms (own expiry computation) <= limit after every message; distinct = (fee class, auto-closed, identifier kind, #coins)",
                 &[ASSUME_CHAIN, ASSUME_BOUNDS],
                 t0,
                 json!({"shards": shards, "ops_per_shard": n}),
